@@ -189,7 +189,13 @@ def validate_trace(module, trace_path, workers=4, timeout=1800, expect_states=No
 
 def validate_stateless(c, module, recs, describe, mutate, label, workers=8, timeout=3000, env=None):
     """Validate independent events (each its own initial state) with monitor spec `module`.
-    mutate(copy_of_event) corrupts one recorded output in place (canary).  Returns rejected events (without the canary)."""
+    mutate(copy_of_event) corrupts one recorded output in place (canary).  Returns rejected events (without the canary).
+    Large event lists are validated in shards (TLC's JSON loader degrades badly beyond ~40 k records / 24 MB)."""
+    if len(recs) > 40000:
+        bad = []
+        for i in range(0, len(recs), 40000):
+            bad += validate_stateless(c, module, recs[i:i + 40000], describe, mutate, label, workers=workers, timeout=timeout, env=env)
+        return bad
     wd = c.workdir()
     n = len(recs)
     if n == 0:
